@@ -17,7 +17,8 @@ FAM = {
              ".Bl -t table T", ".It a", ".El", ".Bl -t verse V", ".X set lang fr", ".X set document-title D", "a : b ; c!"],
     "tags": [".X mtag -f xhtml -t t -c span", ".X mtag -f latex -t t -c textbf", ".X dtag -f xhtml -t d -c pre", ".X dtag -f latex -t d -c quote",
              ".Sm -t t w", ".Bm -t t", ".Em", ".Bd -t d", ".Ed", ".Bd -t d -r", ".Ed -t d", ".Bm -r -t t", ".Em -t t", "t",
-             ".Bf -f xhtml", ".Ef", ".Ft -f latex \\e{x}", ".Bf -t escape", "<&>"],
+             ".Bf -f xhtml", ".Ef", ".Ft -f latex \\e{x}", ".Bf -t escape", "<&>",
+             ".X mtag -f xhtml -t u -c b -a |class|x|id|y", ".X dtag -f xhtml -t e -a |k|1|k|2", ".Sm -t u -id i w", ".Bd -t e"],
 }
 SKEL = [
     ("verse", [".Bl -t verse", ".It a"], [".El"]),
